@@ -553,6 +553,35 @@ impl World {
                 self.warm().await;
                 true
             }
+            Op::CreateAgain { role, with_key } => {
+                let role = *role as usize % 4;
+                let name = self.model.name(role);
+                let mut p = json!({"name": name});
+                let supplied = if *with_key { Some(self.fresh_key(role)) } else { None };
+                if let Some(k) = &supplied {
+                    p["api_key"] = json!(k);
+                }
+                let (s, _) = self.admin("/", "db.create", p).await;
+                if s != 200 {
+                    // refused: the key it carried was never bound - from now on it is probed like a
+                    // revoked key (it must authenticate nowhere, now and after a reopen / restart)
+                    if let Some(k) = supplied {
+                        self.model.retired.push(k);
+                    }
+                    return false;
+                }
+                // acknowledged (the server re-created / adopted the name): the model follows the answer
+                let d = self.model.dbs.get_mut(name).unwrap();
+                d.open = true;
+                if let Some(k) = supplied {
+                    if let Some(old) = d.key.replace(k.clone()) {
+                        if old != k {
+                            self.model.retired.push(old);
+                        }
+                    }
+                }
+                true
+            }
             Op::Restart => self.restart().await.is_ok(),
             Op::DbReadOnly { role, on } => {
                 let name = self.model.name(*role as usize % 5);
@@ -729,6 +758,10 @@ pub enum Op {
     FrozenRemoveKey { role: u8 },
     Close { role: u8 },
     Open { role: u8, connect: bool },
+    /// `db.create` for a name that already exists (open, or closed with its data and binding kept),
+    /// with or without a new caller-supplied key: whatever the server answers, a refused request
+    /// binds nothing
+    CreateAgain { role: u8, with_key: bool },
     Restart,
     DbReadOnly { role: u8, on: bool },
     CollReadOnly { role: u8, coll: u8, on: bool },
